@@ -38,7 +38,7 @@ func NewModel(opts ...resource.Option) *Model {
 func (m *Model) CreateConsumable(consumable *traits.Consumable) (*traits.Consumable, error) {
 	return castConsumable(m.consumables.Add(consumable.Name, consumable, resource.WithGenIDIfAbsent(), resource.WithIDCallback(func(id string) {
 		consumable.Name = id
-	})))
+	}), resource.WithMoreWritablePaths("name"))) // (the key is the model's to write, whatever writable fields were configured)
 }
 
 func (m *Model) GetConsumable(name string, opts ...resource.ReadOption) (*traits.Consumable, bool) {
@@ -55,7 +55,7 @@ func (m *Model) UpdateConsumable(consumable *traits.Consumable, opts ...resource
 	}
 	// the name is part of every write, whatever the update mask says: a consumable created by this call
 	// (create-if-absent) from the masked fields alone would be filed under its key with an empty Name of its own
-	opts = append(opts[:len(opts):len(opts)], resource.WithMoreUpdatePaths("name"))
+	opts = append(opts[:len(opts):len(opts)], resource.WithMoreUpdatePaths("name"), resource.WithMoreWritablePaths("name"))
 	msg, err := m.consumables.Update(consumable.Name, consumable, opts...)
 	return castConsumable(msg, err)
 }
@@ -130,7 +130,7 @@ func (m *Model) PullConsumables(ctx context.Context, opts ...resource.ReadOption
 func (m *Model) CreateStock(stock *traits.Consumable_Stock) (*traits.Consumable_Stock, error) {
 	return castStock(m.inventory.Add(stock.Consumable, stock, resource.WithGenIDIfAbsent(), resource.WithIDCallback(func(id string) {
 		stock.Consumable = id
-	})))
+	}), resource.WithMoreWritablePaths("consumable")))
 }
 
 func (m *Model) GetStock(consumable string, opts ...resource.ReadOption) (*traits.Consumable_Stock, bool) {
@@ -146,7 +146,7 @@ func (m *Model) UpdateStock(stock *traits.Consumable_Stock, opts ...resource.Wri
 		return nil, status.Error(codes.NotFound, "consumable not specified")
 	}
 	// (as for consumables: the key is part of every write)
-	opts = append(opts[:len(opts):len(opts)], resource.WithMoreUpdatePaths("consumable"))
+	opts = append(opts[:len(opts):len(opts)], resource.WithMoreUpdatePaths("consumable"), resource.WithMoreWritablePaths("consumable"))
 	msg, err := m.inventory.Update(stock.Consumable, stock, opts...)
 	return castStock(msg, err)
 }
